@@ -629,6 +629,11 @@ func (cs *ConsensusState) addVote(vote *types.Vote, peerID p2p.ID) (bool, error)
 			return false, nil
 		}
 
+		if cs.LastCommit == nil {
+			// At the initial height there is no previous commit to add the precommit to.
+			return false, nil
+		}
+
 		added, err = cs.LastCommit.AddVote(vote)
 		if !added {
 			return false, err
